@@ -564,6 +564,11 @@ static void DisasmIterator(OneChunk const* pChunk, Boolean IsData, void* pUser) 
         }
         fputc('\n', pData->pDestFile);
 
+        /* nothing retrievable at this address: no progress possible in this area */
+
+        if (Info.CodeLen == 0) {
+            break;
+        }
         Address += Info.CodeLen;
     }
 }
